@@ -2,7 +2,7 @@
 //! shuttle::future::block_on, future tasks are spawned with shuttle::future::spawn.
 use crate::rec::log;
 use serde_json::{json, Value};
-use shuttle_tokio_impl_inner::sync::{mpsc, oneshot, Mutex, Notify, Semaphore};
+use shuttle_tokio_impl_inner::sync::{mpsc, oneshot, watch, Mutex, Notify, RwLock, Semaphore};
 use std::sync::Arc;
 
 enum Tx {
@@ -18,6 +18,7 @@ struct Shared {
     notifies: Vec<Notify>,
     sems: Vec<Arc<Semaphore>>,
     mutexes: Vec<Arc<Mutex<i64>>>,
+    rwlocks: Vec<Arc<RwLock<i64>>>,
 }
 
 /// What a task owns when it starts.
@@ -26,6 +27,8 @@ struct Handles {
     rx: Vec<Option<Rx>>,
     otx: Vec<Option<oneshot::Sender<i64>>>,
     orx: Vec<Option<oneshot::Receiver<i64>>>,
+    wtx: Vec<Option<watch::Sender<i64>>>,
+    wrx: Vec<Option<watch::Receiver<i64>>>,
 }
 
 fn call(t: usize, pc: usize, k: &str, o: i64, v: i64) {
@@ -38,6 +41,8 @@ fn ret(t: usize, pc: usize, k: &str, r: i64) {
 async fn body(sh: Arc<Shared>, ix: usize, ops: Vec<Value>, mut h: Handles) {
     let mut permits: Vec<Option<shuttle_tokio_impl_inner::sync::OwnedSemaphorePermit>> = (0..sh.sems.len()).map(|_| None).collect();
     let mut guards: Vec<Option<shuttle_tokio_impl_inner::sync::OwnedMutexGuard<i64>>> = (0..sh.mutexes.len()).map(|_| None).collect();
+    let mut rguards: Vec<Option<shuttle_tokio_impl_inner::sync::OwnedRwLockReadGuard<i64>>> = (0..sh.rwlocks.len()).map(|_| None).collect();
+    let mut wguards: Vec<Option<shuttle_tokio_impl_inner::sync::OwnedRwLockWriteGuard<i64>>> = (0..sh.rwlocks.len()).map(|_| None).collect();
     let mut pc = 0usize;
     for op in &ops {
         pc += 1;
@@ -202,6 +207,75 @@ async fn body(sh: Arc<Shared>, ix: usize, ops: Vec<Value>, mut h: Handles) {
                 drop(guards[ou].take());
                 0
             }
+            // ---- watch
+            "w_send" => match h.wtx[ou].as_ref().expect("watch sender gone").send(v) {
+                Ok(()) => 0,
+                Err(_) => -1,
+            },
+            "w_borrow" => *h.wrx[ou].as_ref().expect("watch receiver gone").borrow(),
+            "w_bupd" => *h.wrx[ou].as_mut().expect("watch receiver gone").borrow_and_update(),
+            "w_changed" => match h.wrx[ou].as_mut().expect("watch receiver gone").changed().await {
+                Ok(()) => 0,
+                Err(_) => -1,
+            },
+            "w_has" => match h.wrx[ou].as_ref().expect("watch receiver gone").has_changed() {
+                Ok(true) => 1,
+                Ok(false) => 0,
+                Err(_) => -1,
+            },
+            "w_drop_tx" => {
+                drop(h.wtx[ou].take());
+                0
+            }
+            "w_drop_rx" => {
+                drop(h.wrx[ou].take());
+                0
+            }
+            // ---- RwLock (the protected value makes exclusion visible)
+            "rw_read" => {
+                rguards[ou] = Some(Arc::clone(&sh.rwlocks[ou]).read_owned().await);
+                0
+            }
+            "rw_try_read" => match Arc::clone(&sh.rwlocks[ou]).try_read_owned() {
+                Ok(g) => {
+                    rguards[ou] = Some(g);
+                    0
+                }
+                Err(_) => -2,
+            },
+            "rw_write" => {
+                wguards[ou] = Some(Arc::clone(&sh.rwlocks[ou]).write_owned().await);
+                0
+            }
+            "rw_try_write" => match Arc::clone(&sh.rwlocks[ou]).try_write_owned() {
+                Ok(g) => {
+                    wguards[ou] = Some(g);
+                    0
+                }
+                Err(_) => -2,
+            },
+            "rw_get" => match (&rguards[ou], &wguards[ou]) {
+                (Some(g), _) => **g,
+                (_, Some(g)) => **g,
+                _ => -9,
+            },
+            "rw_set" => {
+                if let Some(g) = wguards[ou].as_mut() {
+                    **g = v;
+                }
+                0
+            }
+            "rw_downgrade" => {
+                if let Some(g) = wguards[ou].take() {
+                    rguards[ou] = Some(g.downgrade());
+                }
+                0
+            }
+            "rw_unlock" => {
+                drop(rguards[ou].take());
+                drop(wguards[ou].take());
+                0
+            }
             "yield" => {
                 shuttle::future::yield_now().await;
                 0
@@ -211,6 +285,15 @@ async fn body(sh: Arc<Shared>, ix: usize, ops: Vec<Value>, mut h: Handles) {
         ret(ix, pc, k, r);
     }
     // what the task still owns is released in a fixed order, each release a logged operation of its own
+    for i in 0..rguards.len() {
+        if rguards[i].is_some() || wguards[i].is_some() {
+            pc += 1;
+            call(ix, pc, "rw_unlock", i as i64, 0);
+            drop(rguards[i].take());
+            drop(wguards[i].take());
+            ret(ix, pc, "rw_unlock", 0);
+        }
+    }
     for (i, g) in guards.iter_mut().enumerate() {
         if g.is_some() {
             pc += 1;
@@ -259,6 +342,22 @@ async fn body(sh: Arc<Shared>, ix: usize, ops: Vec<Value>, mut h: Handles) {
             ret(ix, pc, "os_drop_rx", 0);
         }
     }
+    for i in 0..h.wtx.len() {
+        if h.wtx[i].is_some() {
+            pc += 1;
+            call(ix, pc, "w_drop_tx", i as i64, 0);
+            drop(h.wtx[i].take());
+            ret(ix, pc, "w_drop_tx", 0);
+        }
+    }
+    for i in 0..h.wrx.len() {
+        if h.wrx[i].is_some() {
+            pc += 1;
+            call(ix, pc, "w_drop_rx", i as i64, 0);
+            drop(h.wrx[i].take());
+            ret(ix, pc, "w_drop_rx", 0);
+        }
+    }
     log(json!({"e":"fin","t":ix}));
 }
 
@@ -272,12 +371,15 @@ pub fn run_main(p: Arc<Value>) {
     let nnt = p["nnt"].as_u64().unwrap_or(0) as usize;
     let sems: Vec<usize> = p["sems"].as_array().map(|a| a.iter().map(|x| x.as_u64().unwrap() as usize).collect()).unwrap_or_default();
     let nmx = p["nmx"].as_u64().unwrap_or(0) as usize;
+    let nwt = p["nwt"].as_u64().unwrap_or(0) as usize;
+    let nrwl = p["nrwl"].as_u64().unwrap_or(0) as usize;
     let tasks = p["tasks"].as_array().unwrap().clone();
     let n = tasks.len();
     let sh = Arc::new(Shared {
         notifies: (0..nnt).map(|_| Notify::new()).collect(),
         sems: sems.iter().map(|&k| Arc::new(Semaphore::new(k))).collect(),
         mutexes: (0..nmx).map(|_| Arc::new(Mutex::new(0))).collect(),
+        rwlocks: (0..nrwl).map(|_| Arc::new(RwLock::new(0))).collect(),
     });
     let mut hs: Vec<Handles> = (0..n)
         .map(|_| Handles {
@@ -285,6 +387,8 @@ pub fn run_main(p: Arc<Value>) {
             rx: (0..chans.len()).map(|_| None).collect(),
             otx: (0..nos).map(|_| None).collect(),
             orx: (0..nos).map(|_| None).collect(),
+            wtx: (0..nwt).map(|_| None).collect(),
+            wrx: (0..nwt).map(|_| None).collect(),
         })
         .collect();
     // channels: every task listed under "tx" gets its own clone; the original sender is dropped before anything runs
@@ -320,6 +424,18 @@ pub fn run_main(p: Arc<Value>) {
         let ro = tasks.iter().position(|tv| ids(tv, "orx").contains(&o)).expect("oneshot without a receiver");
         hs[to].otx[o] = Some(tx);
         hs[ro].orx[o] = Some(rx);
+    }
+    // watch: one sender (task listed under "wtx"), every task under "wrx" gets a clone of the receiver made at the start
+    for wi in 0..nwt {
+        let (tx, rx) = watch::channel::<i64>(0);
+        let to = tasks.iter().position(|tv| ids(tv, "wtx").contains(&wi)).expect("watch without a sender");
+        hs[to].wtx[wi] = Some(tx);
+        for (t, tv) in tasks.iter().enumerate() {
+            if ids(tv, "wrx").contains(&wi) {
+                hs[t].wrx[wi] = Some(rx.clone());
+            }
+        }
+        drop(rx);
     }
     log(json!({"e":"start"}));
     let mut hs: Vec<Option<Handles>> = hs.into_iter().map(Some).collect();
